@@ -857,6 +857,129 @@ def gen_normpath(repo):
                     body])
 
 
+def skeleton_of(fn):
+    """control-flow skeleton of a function: one line per statement, indented by nesting depth; simple
+    statements by their (normalised) source text, compound ones by their header"""
+    out = []
+
+    def one(text, depth):
+        text = ' '.join(text.split())
+        out.append('  ' * depth + text)
+
+    def walk(stmts, depth):
+        for st in stmts:
+            if isinstance(st, ast.Expr) and isinstance(st.value, ast.Constant) and isinstance(st.value.value, str):
+                continue                      # docstring
+            if isinstance(st, (ast.For, ast.While)):
+                hdr = ('for %s in %s' % (ast.unparse(st.target), ast.unparse(st.iter))) if isinstance(st, ast.For) \
+                    else 'while %s' % ast.unparse(st.test)
+                one(hdr, depth)
+                walk(st.body, depth + 1)
+                if st.orelse:
+                    one('else', depth)
+                    walk(st.orelse, depth + 1)
+            elif isinstance(st, ast.If):
+                one('if %s' % ast.unparse(st.test), depth)
+                walk(st.body, depth + 1)
+                if st.orelse:
+                    one('else', depth)
+                    walk(st.orelse, depth + 1)
+            elif isinstance(st, ast.Try):
+                one('try', depth)
+                walk(st.body, depth + 1)
+                for h in st.handlers:
+                    one('except %s%s' % (ast.unparse(h.type) if h.type else '<bare>', ' as ' + h.name if h.name else ''), depth)
+                    walk(h.body, depth + 1)
+                if st.orelse:
+                    one('else', depth)
+                    walk(st.orelse, depth + 1)
+                if st.finalbody:
+                    one('finally', depth)
+                    walk(st.finalbody, depth + 1)
+            elif isinstance(st, ast.With):
+                one('with %s' % ', '.join(ast.unparse(i) for i in st.items), depth)
+                walk(st.body, depth + 1)
+            elif isinstance(st, ast.FunctionDef):
+                one('def %s(%s)' % (st.name, ast.unparse(st.args)), depth)
+                walk(st.body, depth + 1)
+            elif isinstance(st, ast.ClassDef):
+                raise TranslatorError('nested class %s in a pinned function' % st.name)
+            else:
+                one(ast.unparse(st), depth)
+    walk(fn.body, 0)
+    return out
+
+
+def gen_dispatch_shape(repo):
+    """application.py: the request path of Application (dispatch loop, _dispatch_wsgi, DispatchState) and
+    route.py: BoundRoute.match_path / match_method / execute, as control-flow skeletons.  Model/Dispatch.v is a
+    hand transcription of exactly these; the skeletons are pinned by reflexivity obligations in Props/C06.v and
+    Props/C08.v, so that ANY edit of these functions re-opens the correspondence question."""
+    app = parse(repo, 'clastic/application.py')
+    route = parse(repo, 'clastic/route.py')
+    items = []
+    for tree, cls, fns in ((app, 'Application', ['dispatch', '_dispatch_wsgi']),
+                           (app, 'DispatchState', ['add_exception', 'update_methods']),
+                           (route, 'BoundRoute', ['match_path', 'match_method', 'execute'])):
+        c = find_class(tree, cls)
+        for f in fns:
+            fn = find_def(c.body, f)
+            name = ('%s_%s' % (cls, f.strip('_'))).upper()
+            items.append((name, skeleton_of(fn)))
+    return shape_file('clastic/application.py, clastic/route.py', items)
+
+
+def shape_file(srcs, items):
+    text = HEADER % srcs
+    text += 'From Coq Require Import List String.\nImport ListNotations.\nLocal Open Scope string_scope.\n\n'
+    for name, lines in items:
+        text += 'Definition SK_%s : list string :=\n  [%s].\n\n' % (name, ';\n   '.join(coq_str(l) for l in lines))
+    return text
+
+
+def module_def(tree, name):
+    for n in tree.body:
+        if isinstance(n, ast.FunctionDef) and n.name == name:
+            return n
+    raise TranslatorError('module-level function %s not found' % name)
+
+
+def gen_chain_shape(repo):
+    """sinter.py / middleware/core.py / route.py: the bind-time machinery that Model/Chain.v transcribes by hand"""
+    sinter = parse(repo, 'clastic/sinter.py')
+    core = parse(repo, 'clastic/middleware/core.py')
+    route = parse(repo, 'clastic/route.py')
+    items = []
+    for tree, fns in ((sinter, ['chain_argspec', 'build_chain_str', 'make_chain', 'inject']),
+                      (core, ['check_middleware', 'check_middlewares', 'merge_middlewares', 'make_middleware_chain'])):
+        for f in fns:
+            items.append((f.upper(), skeleton_of(module_def(tree, f))))
+    br = find_class(route, 'BoundRoute')
+    for f in ['__init__', '_resolve_required_args']:
+        items.append(('BOUNDROUTE_' + f.strip('_').upper(), skeleton_of(find_def(br.body, f))))
+    return shape_file('clastic/sinter.py, clastic/middleware/core.py, clastic/route.py', items)
+
+
+def gen_world_shape(repo):
+    """application.py: construction, add() and embedding - what Model/World.v transcribes by hand"""
+    app = parse(repo, 'clastic/application.py')
+    route = parse(repo, 'clastic/route.py')
+    items = []
+    a = find_class(app, 'Application')
+    for f in ['__init__', 'add', 'iter_routes']:
+        items.append(('APPLICATION_' + f.strip('_').upper(), skeleton_of(find_def(a.body, f))))
+    sa = find_class(app, 'SubApplication')
+    for f in ['__init__', 'bind_all', 'iter_routes']:
+        items.append(('SUBAPPLICATION_' + f.strip('_').upper(), skeleton_of(find_def(sa.body, f))))
+    items.append(('CAST_TO_ROUTE_FACTORY', skeleton_of(module_def(app, 'cast_to_route_factory'))))
+    r = find_class(route, 'Route')
+    for f in ['__init__', 'bind', 'iter_routes']:
+        items.append(('ROUTE_' + f.strip('_').upper(), skeleton_of(find_def(r.body, f))))
+    br = find_class(route, 'BoundRoute')
+    items.append(('BOUNDROUTE_BIND', skeleton_of(find_def(br.body, 'bind'))))
+    return shape_file('clastic/application.py, clastic/route.py', items)
+
+
 GENERATORS = {
     'Footprint.v': gen_footprint,
     'MetaGen.v': gen_meta,
@@ -870,6 +993,9 @@ GENERATORS = {
     'NormPathGen.v': gen_normpath,
     'Tables.v': gen_tables,
     'ReservoirGen.v': gen_reservoir,
+    'DispatchShape.v': gen_dispatch_shape,
+    'ChainShape.v': gen_chain_shape,
+    'WorldShape.v': gen_world_shape,
 }
 
 
